@@ -111,6 +111,7 @@ func visitInstr(fr *frame, instr ssa.Instruction) continuation {
 		i.abort(abortBudget, fmt.Sprintf("instruction budget %d exhausted in %s", i.cfg.MaxSteps, fr.fn))
 	}
 	fr.curInstr = instr
+	i.curFrame = fr
 	switch instr := instr.(type) {
 	case *ssa.DebugRef:
 		// no-op
@@ -338,10 +339,55 @@ func (i *interpreter) checkAllocSize(fr *frame, n value, what string, panicsNega
 			panic(runtimeErr(what + ": out of range"))
 		}
 	}
+	if i.allocBoundSet {
+		// the harness bounds input-derived allocation sizes: an obligation, then an assumption
+		var within *Term
+		if signed {
+			within = s.SLe(sv.T, s.BV(w, uint64(i.allocBound)))
+		} else {
+			within = s.ULe(sv.T, s.BV(w, uint64(i.allocBound)))
+		}
+		i.allocSites[what+" at "+fr.site(fr.curInstr.Pos())]++
+		// prefer a large witness (>= 2^28 elements): it reproduces natively whatever the element size
+		var huge *Term
+		if signed {
+			huge = s.SLt(s.BV(w, 1<<28), sv.T)
+		} else {
+			huge = s.ULt(s.BV(w, 1<<28), sv.T)
+		}
+		if i.allocBound < 1<<28 {
+			if r, _, _ := i.checkQ(huge); r == "sat" {
+				if fr2, m := i.fullModel(huge); fr2 == "sat" {
+					i.asserts++
+					i.recordFinding("assert", i.allocMsg, fr.site(fr.curInstr.Pos()), m)
+					if rc, _, _ := i.checkQ(within); rc == "unsat" {
+						i.abort(abortStop, "allocation bound violated on the whole path")
+					}
+					i.assume(within)
+					return
+				}
+			}
+		}
+		i.checkAssert(within, i.allocMsg)
+	}
+}
+
+// widen64 converts a symbolic integer of any width to a 64-bit int value.
+func (i *interpreter) widen64(v value) value {
+	sv, ok := v.(*Sym)
+	if !ok {
+		return v
+	}
+	sort, signed := kindInfo(sv.K)
+	if sort.Width() == 64 {
+		return v
+	}
+	return i.val(i.st.Resize(sv.T, 64, signed), types.Int)
 }
 
 func (i *interpreter) makeSlice(fr *frame, instr *ssa.MakeSlice) value {
 	ln, cp := fr.get(instr.Len), fr.get(instr.Cap)
+	ln, cp = i.widen64(i.singleton(ln)), i.widen64(i.singleton(cp))
 	tElt := instr.Type().Underlying().(*types.Slice).Elem()
 	i.checkAllocSize(fr, ln, "makeslice: len", true)
 	i.checkAllocSize(fr, cp, "makeslice: cap", true)
@@ -354,6 +400,9 @@ func (i *interpreter) makeSlice(fr *frame, instr *ssa.MakeSlice) value {
 			}
 		} else if !i.decide(i.st.SLe(sv.T, i.st.BV(64, uint64(asInt64(cp)))), "makeslice len<=cap") {
 			panic(runtimeErr("makeslice: cap out of range"))
+		}
+		if i.decide(i.st.SLt(i.st.BV(64, uint64(i.cfg.MaxEnum)), sv.T), "makeslice len above enumeration bound") {
+			i.abortAt(fr, abortUnsupported, fmt.Sprintf("symbolic slice length above the enumeration bound %d", i.cfg.MaxEnum))
 		}
 		n = i.concInt(ln, 0, int64(i.cfg.MaxEnum), "makeslice len")
 	} else {
